@@ -1,5 +1,6 @@
 import LoraVerif.Model.Mac
 import LoraVerif.Props.TieA.HandleRx
+import LoraVerif.Props.TieA.HandleRxFull
 import LoraVerif.Props.TieA.PrepareBuffer
 import LoraVerif.Gen.SessionStatic
 import LoraVerif.Props.TieA.Rx2Complete
@@ -63,20 +64,21 @@ theorem tieA_prepare_buffer_header {β : Type} [Gen.SessionTx.TxBufOps β] (code
 accepted downlink advances `fcnt_up` by exactly one unless it is `0xFFFF_FFFF`, in which case
 `SessionExpired` is reported and the counter stays; no other path of `handle_rx` touches it except the
 oversized-frame path through `rx2_complete` (`C06.handleRx_fcnt` is about that model function).  See
-`C05.tieA_handle_rx_accept`.  Proved in `Props/TieA/HandleRx.lean`. -/
-theorem tieA_handle_rx_accept [Gen.SessionRx.MacOps RegionState] (S : List Int → Prop)
-    (hnl : TieA.Rx.NextLowerOk) (hsim : TieA.Rx.MacsOk S)
+`C05.tieA_handle_rx_accept`.  Proved in `Props/TieA/HandleRx.lean`.  Builder S: stated for the regenerated
+`handle_downlink_macs` (`TieA.Rx.Full.genOps`) on every command stream, no simulation hypothesis
+(`Props/TieA/HandleRxFull.lean`). -/
+theorem tieA_handle_rx_accept
     (D : Int) (gs : Gen.SessionRx.Session) (rs : RegionState) (g : Gen.SessionRx.Configuration)
     (rx : Gen.SessionRx.RadioBuffer) (dl : List Gen.SessionRx.Downlink) (maxp snr : Int) (ign : Bool)
     (e : Gen.SessionRx.EncryptedDataPayload)
     (hparse : rx.as_mut_for_read.parse = some e)
     (hw : TieA.Rx.SessWF gs) (hmax : 0 ≤ maxp ∧ maxp ≤ 255) (hwire : 0 ≤ e.fhdr.fcnt)
     (hdec : ∀ f, Gen.SessionRx.next_fcnt_down gs.fcnt_down e.fhdr.fcnt = some f → e.validate_mic (TieA.Rx.nwkOf gs) f = true →
-      ∃ d, rx.as_mut_for_read.decrypt_in_place (some (TieA.Rx.nwkOf gs)) (some (TieA.Rx.appOf gs)) f = some d ∧ TieA.Rx.DecWF S d) :
-    (Gen.SessionRx.Session.handle_rx D gs rs g rx dl maxp snr ign).bind
+      ∃ d, rx.as_mut_for_read.decrypt_in_place (some (TieA.Rx.nwkOf gs)) (some (TieA.Rx.appOf gs)) f = some d ∧ TieA.Rx.DecWF TieA.Rx.Full.Stream d) :
+    (@Gen.SessionRx.Session.handle_rx RegionState TieA.Rx.Full.genOps D gs rs g rx dl maxp snr ign).bind
         (fun out => (TieA.Rx.respOf out.1).map (fun r => (r, TieA.Rx.sessOf out.2.1, out.2.2.1, TieA.Rx.cfgOf out.2.2.2.1, out.2.2.2.2.2.map TieA.Rx.dlOf)))
       = (sessionHandleRx (TieA.Rx.sessOf gs) (TieA.Rx.cfgOf g) rs (TieA.Rx.dataOf gs e (TieA.Rx.decOf gs rx e)) maxp.toNat snr ign).toOption.map (TieA.Rx.expect dl D) :=
-  TieA.Rx.tieA_handle_rx_accept S hnl hsim D gs rs g rx dl maxp snr ign e hparse hw hmax hwire hdec
+  TieA.Rx.Full.handle_rx_full D gs rs g rx dl maxp snr ign e hparse hw hmax hwire hdec
 
 
 #print axioms tieA_handle_rx_accept
